@@ -214,7 +214,8 @@ Definition correct_type (ls : list link) (n : node) : node :=
   if ntype_eqb (n_type n) TIla && negb (Nat.eqb (length (links_of (n_city n) ls)) 2)
   then set_type n TRoadm else n.
 Definition sanity_check (ns : list node) (ls : list link) (es : list eqpt) : res (list node) :=
-  if dup_links ls then Err "NetworkTopologyError:duplicate_link"
+  if existsb (fun l => seqb (l_from l) (l_to l)) ls then Err "NetworkTopologyError:self_loop_link"
+  else if dup_links ls then Err "NetworkTopologyError:duplicate_link"
   else if existsb (fun n => negb (has_links (n_city n) ls)) ns then Err "NetworkTopologyError:unreferenced_node"
   else if existsb (fun e => negb (smem (e_from e) (cities ns)) || negb (smem (e_to e) (cities ns))) es
   then Err "NetworkTopologyError:eqpt_unknown_node"
@@ -222,6 +223,8 @@ Definition sanity_check (ns : list node) (ls : list link) (es : list eqpt) : res
   else if dupb (map (fun e => pair_key (e_from e) (e_to e)) es) then Err "NetworkTopologyError:duplicate_eqpt"
   else if existsb (fun n => ntype_eqb (n_type n) TIla && Nat.ltb 1 (length (eqpts_of (n_city n) es))) ns
   then Err "NetworkTopologyError:duplicate_ila"
+  else if existsb (fun n => ntype_eqb (n_type n) TFused && negb (Nat.eqb (length (links_of (n_city n) ls)) 2)) ns
+  then Err "NetworkTopologyError:fused_degree"
   else Ok (map (correct_type ls) ns).
 
 (* ---------- element builders ---------- *)
